@@ -36,7 +36,9 @@ from ``vgi_rpc/http/server/_app_stream.py`` / ``_app_unary.py`` / ``_resources.p
 from ``vgi_rpc/logging_utils.py`` (``VgiAccessLogFormatter.format``)
   * ``sentinelBase`` / ``sentinelCond``   keys of the sentinel dict literal / keys stored afterwards;
   * ``shedOrder``      the order in which ``request_data`` and ``claims`` are shed;
-  * ``sentinelErrFallback``   the literal used when an error record reaches the sentinel without a usable message.
+  * ``sentinelErrFallback``   the literal used when an error record reaches the sentinel without a usable message;
+  * ``jsonAsciiOnly``  no ``json.dumps`` reached by ``VgiJsonFormatter.format`` / ``VgiAccessLogFormatter.format`` (directly, through
+                       ``_encoded_len`` or a module-level helper) passes ``ensure_ascii=False``.
 
 Anything outside the recognised shapes raises (extraction fails loudly).
 """
@@ -643,6 +645,54 @@ def sid_shape() -> dict[str, bool]:
     return {"miss": on_miss, "hit": on_hit, "init": set_line is not None and set_line < with_line}
 
 
+def json_ascii_only() -> bool:
+    """Every ``json.dumps`` the two formatters reach (directly or through a module-level helper they call) escapes non-ASCII:
+    no ``ensure_ascii=False``.  With ASCII-only output a record can only ever be one physical line, whatever a reader takes
+    for a line boundary (``str.splitlines`` — used by the shipped validator — also splits on U+0085, U+2028, U+2029, …)."""
+    tree = _parse("vgi_rpc/logging_utils.py")
+    mod_funcs = {n.name: n for n in tree.body if isinstance(n, ast.FunctionDef)}
+
+    def dumps_flags(fn: ast.FunctionDef, depth: int = 0) -> list[bool]:
+        out: list[bool] = []
+        for c in ast.walk(fn):
+            if not isinstance(c, ast.Call):
+                continue
+            f = c.func
+            if isinstance(f, ast.Attribute) and f.attr == "dumps" and isinstance(f.value, ast.Name) and f.value.id == "json":
+                flag = True
+                for kw in c.keywords:
+                    if kw.arg is None:
+                        raise Unsupported(f"{fn.name}: json.dumps(**kwargs)")
+                    if kw.arg == "ensure_ascii":
+                        if not (isinstance(kw.value, ast.Constant) and isinstance(kw.value.value, bool)):
+                            raise Unsupported(f"{fn.name}: ensure_ascii is not a literal")
+                        flag = kw.value.value
+                out.append(flag)
+            elif isinstance(f, ast.Name) and f.id in mod_funcs and depth < 3:
+                out += dumps_flags(mod_funcs[f.id], depth + 1)
+            elif isinstance(f, ast.Attribute) and isinstance(f.value, ast.Name) and f.value.id == "self" and depth < 3:
+                for cls in tree.body:
+                    if isinstance(cls, ast.ClassDef) and cls.name in ("VgiJsonFormatter", "VgiAccessLogFormatter"):
+                        for m in cls.body:
+                            if isinstance(m, ast.FunctionDef) and m.name == f.attr and m is not fn and m.name in ("_encoded_len",):
+                                out += dumps_flags(m, depth + 1)
+        return out
+
+    flags: list[bool] = []
+    for cname in ("VgiJsonFormatter", "VgiAccessLogFormatter"):
+        cls = next((n for n in tree.body if isinstance(n, ast.ClassDef) and n.name == cname), None)
+        if cls is None:
+            raise Unsupported(f"{cname} not found")
+        fmt = next((n for n in cls.body if isinstance(n, ast.FunctionDef) and n.name == "format"), None)
+        if fmt is None:
+            raise Unsupported(f"{cname}.format not found")
+        got = dumps_flags(fmt)
+        if not got:
+            raise Unsupported(f"{cname}.format: no json.dumps call reached (another serialiser?)")
+        flags += got
+    return all(flags)
+
+
 def formatter_shape() -> dict[str, object]:
     tree = _parse("vgi_rpc/logging_utils.py")
     cls = next((n for n in tree.body if isinstance(n, ast.ClassDef) and n.name == "VgiAccessLogFormatter"), None)
@@ -756,6 +806,9 @@ def sentinelBase : List Key := {_keys(list(fs["base"]), names, "sentinel literal
 def sentinelCond : List Key := {_keys(list(fs["cond"]), names, "sentinel stores")}
 def shedOrder : List Key := {_keys(list(fs["order"]), names, "shed order")}
 def sentinelErrFallback : List Char := {lean_str(str(fs["fallback"]))}
+
+/-- every `json.dumps` the formatters reach keeps the default `ensure_ascii=True` (non-ASCII and DEL are `\\uXXXX`-escaped) -/
+def jsonAsciiOnly : Bool := {"true" if json_ascii_only() else "false"}
 
 end VgiVerif.Gen.C34
 """
